@@ -77,6 +77,7 @@ type FnGen struct {
 	rangeIters map[ssa.Value]*rangeIter
 	localAllocs []Term
 	curInstrIdx int
+	paramStable map[string]bool
 	privateRefs map[string]string // ref term -> private component prefix (locals captured only by local closures)
 	privateOf   map[*ssa.Alloc]bool
 }
